@@ -15,9 +15,14 @@ RULE = ('SIM: one case = one seeded history from the limit-heavy profiles (pool/
 ASSUMPTIONS = ['SIM: stub workers obey or ignore TERM by script; real signal delivery is covered by the REAL lane only']
 JOBS = 14
 SPEC_TIMEOUT = 900
+CONFIRM_ALONE = ('over_limit_job_not_failed_with_time_limit', 'time_limit_fired_late',
+                 'worker_alive_after_hard_limit', 'later_job_not_served',
+                 'pool_hung_after_hard_limit', 'map_or_imap_job_timed_out_or_broken')
 FLOORS = {
     'quick': {'sim:hard_expiries': 150, 'sim:scans': 3000, 'sim:exit:KILL': 20, 'sim:exit:TERM': 40,
-              'sim:submit_map': 50, 'sim:submit_imap': 30},
+              'sim:submit_map': 50, 'sim:submit_imap': 30,
+              'real:scenarios': 10, 'real:over_limit_jobs': 4, 'real:in_limit_jobs': 3,
+              'real:victims_gone': 3, 'real:sibling_jobs': 6},
     'thorough': {'sim:hard_expiries': 1500, 'sim:scans': 30000},
 }
 
